@@ -188,7 +188,10 @@ def get_solution(
             reverse = rxn.reverse_id
             rxn_index.append(forward)
             fluxes[i] = var_primals[forward] - var_primals[reverse]
-            reduced[i] = var_duals[forward] - var_duals[reverse]
+            # The net flux is forward - reverse, so the reduced cost of the
+            # reverse variable is minus that of the forward variable, which
+            # already is the reduced cost of the flux (the difference is twice it).
+            reduced[i] = var_duals[forward]
         met_index = []
         constr_duals = model.solver.shadow_prices
         for i, met in enumerate(metabolites):
